@@ -547,10 +547,11 @@ pub fn run(ctx: &mut Ctx) {
     // compiled joins (seconds each): single evaluator and three parties
     // "compiled_big" (thorough only, minutes per case): tables of up to 16 rows, other cuckoo table sizes
     // "compiled_dense": at least 512 rows in the second table (the other cuckoo sizing regime)
+    // (the many small cases last: in the thorough tier they run until the soft deadline)
     let phases = [
-        ("compiled", ctx.q(32u64, 2400), ctx.q(4usize, 8)),
-        ("compiled_big", ctx.q(0, 48), 16),
         ("compiled_dense", ctx.q(12, 192), 512),
+        ("compiled_big", ctx.q(0, 48), 16),
+        ("compiled", ctx.q(32u64, 2400), ctx.q(4usize, 8)),
     ];
     for (phase, total, mr) in phases {
     ctx.cases(phase, total, |ctx, idx| {
